@@ -201,6 +201,12 @@ Definition view_step (c : cfg) (s : cli) (sv : sview) (dprev : cdump) (o : op) :
       | SDisconnect _, [] => None                  (* DISCONNECT while no namespace is connected: outside the domain *)
       | SOther, _ => Some (mkV sv no_chk)
       | _, _ =>
+          (* outside the protocol: a second CONNECT, or a CONNECT_ERROR, for a namespace that is currently accepted
+             (per namespace one CONNECT or CONNECT_ERROR, then at most one DISCONNECT): not judged from here on *)
+          if match p with
+             | SConnect ns _ | SError ns _ => ahas str_eqb (sv_acc sv) ns
+             | _ => false
+             end then None else
           if negb (ps_dom st) then Some (mkV sv1 no_chk) else
           judged (ps_calls st) (fun calls =>
           (* the last namespace is gone: the client closes the transport *)
